@@ -306,7 +306,7 @@ def wrap_replay(case, res: Result):
 
 
 # ------------------------------------------------------------------ sheet names
-NAMES = ["Zone", "zone", "A" * 35, "A" * 31 + "BBBB", "a/b", "a?b", "a:b*[c]\\d", "tail'", "", "Zone (2)", "x" * 29 + " (2)", "   "]
+NAMES = ["Zone", "zone", "A" * 35, "A" * 31 + "BBBB", "a/b", "a?b", "a:b*[c]\\d", "tail'", "", "Zone (2)", "x" * 29 + " (2)", "   ", "'lead", "y" * 30 + "'cut"]
 
 
 def check_names(names, res, case, tag):
@@ -321,6 +321,9 @@ def check_names(names, res, case, tag):
             res.violate("sheet_name_length", case, dict(detail, name=n), "sheet_name_length:" + tag)
         if set(n) & FORBIDDEN:
             res.violate("sheet_name_forbidden_character", case, dict(detail, name=n), "sheet_name_forbidden_character:" + tag)
+        if n.startswith("'") or n.endswith("'"):
+            # the apostrophe is the one character Excel forbids by POSITION (first or last character of a sheet name)
+            res.violate("sheet_name_forbidden_character", case, dict(detail, name=n), "sheet_name_apostrophe_at_an_end:" + tag)
 
 
 def name_cases(tier, inst):
@@ -417,7 +420,7 @@ SUBCHECKS = {
         rule="case = sequence; non-trivial = a repeated or over-long name occurs",
         cases=name_cases, run=name_run,
         requires=("OpenPinch.utils.export:_unique_sheet_name",),
-        bound=lambda t: ("all sequences of <=3 of 12 names" if t == "quick" else "all sequences of <=4 of 12 names") + " + runs of 9..12 and 101 repetitions of each name",
+        bound=lambda t: ("all sequences of <=3 of 14 names" if t == "quick" else "all sequences of <=4 of 14 names") + " + runs of 9..12 and 101 repetitions of each name",
     ),
     "workbook": SubCheck(
         name="workbook",
